@@ -378,3 +378,125 @@ pub fn cookie_matrix(_seed: u64) -> usize {
     }
     found
 }
+
+/// C06 sweep: a client that deviates from the packet order. At every step of the login the expected client packet is replaced by
+/// another frame (a packet that is valid elsewhere in the protocol, a duplicate of the previous one, an unknown id, an empty
+/// frame); from then on the server must send none of Login Success / Store Cookie / Transfer and `listen` must end with an error.
+/// Status intent: a Ping before the Status Request gets no Pong, a second Status Request gets no second response.
+pub fn order(_seed: u64) -> usize {
+    use tokio::io::AsyncWriteExt;
+    let rt = crate::rt();
+    let mut found = 0;
+    fn frame(id: i32, body: &[u8]) -> Vec<u8> {
+        fn vi(mut v: u32, out: &mut Vec<u8>) { loop { let b = (v & 0x7f) as u8; v >>= 7; if v == 0 { out.push(b); break; } out.push(b | 0x80); } }
+        let mut idb = vec![]; vi(id as u32, &mut idb);
+        let mut out = vec![]; vi((idb.len() + body.len()) as u32, &mut out); out.extend(idb); out.extend_from_slice(body); out
+    }
+    // the deviations tried at each step: (label, frame)
+    let deviations: Vec<(&str, Vec<u8>)> = vec![
+        ("login acknowledged", frame(0x03, &[])),
+        ("cookie response without payload", frame(0x04, &[1, b'k', 0])),
+        ("login start again", { let mut b = vec![7]; b.extend_from_slice(b"Claimed"); b.extend_from_slice(&[0u8; 16]); frame(0x00, &b) }),
+        ("unknown id 0x2a", frame(0x2a, &[1, 2, 3])),
+        ("keep alive", frame(0x04, &[0, 0, 0, 0, 0, 0, 0, 1])),
+        ("plugin response", frame(0x02, &[0, 0])),
+    ];
+    for step in 1..=4usize {
+        for (label, dev) in &deviations {
+            // skip deviations that carry the id the server expects at this step (0x04 at step 2 is a Cookie Response whatever its body)
+            if (step == 1 && *label == "login start again") || (step == 2 && (*label == "cookie response without payload" || *label == "keep alive")) || (step == 4 && *label == "login acknowledged") {
+                continue;
+            }
+            let dev = dev.clone();
+            let (after, server_result): (Vec<i32>, String) = rt.block_on(async move {
+                use passage_packets::ReadPacket;
+                let (mut client, server_stream): (DuplexStream, DuplexStream) = tokio::io::duplex(1 << 16);
+                let mut server = Connection::new(
+                    server_stream,
+                    Arc::new(FixedStatusAdapter::default()),
+                    Arc::new(FixedDiscoveryAdapter::new(vec![target("10.0.0.7:25570", "lobby-1")])),
+                    Arc::new(Vec::<MetaFilterAdapter>::new()),
+                    Arc::new(AnyStrategyAdapter::new()),
+                    Arc::new(FixedAuthenticationAdapter::default()),
+                    Arc::new(FixedLocalizationAdapter::default()),
+                )
+                .with_client_address(SocketAddr::from_str("127.0.0.1:25564").unwrap());
+                let server = tokio::spawn(async move { server.listen().await.map_err(|e| e.to_string()) });
+                let mut after: Vec<i32> = vec![];
+                let _: Result<(), String> = async {
+                    client.write_packet(hand_in::HandshakePacket { protocol_version: 767, server_address: "play.example".into(), server_port: 25565, next_state: State::Login }).await.map_err(|e| e.to_string())?;
+                    // step 1: Login Start
+                    if step == 1 { client.write_all(&dev).await.map_err(|e| e.to_string())?; } else {
+                        client.write_packet(login_in::LoginStartPacket { user_name: "Claimed".into(), user_id: Uuid::from_u128(1) }).await.map_err(|e| e.to_string())?;
+                        let (_id, mut b) = read_frame(&mut client).await?;
+                        let req = login_out::CookieRequestPacket::read_from_buffer(&mut b).await.map_err(|e| e.to_string())?;
+                        // step 2: session Cookie Response
+                        if step == 2 { client.write_all(&dev).await.map_err(|e| e.to_string())?; } else {
+                            client.write_packet(login_in::CookieResponsePacket { key: req.key, payload: None }).await.map_err(|e| e.to_string())?;
+                            let (_id, mut b) = read_frame(&mut client).await?;
+                            let enc = login_out::EncryptionRequestPacket::read_from_buffer(&mut b).await.map_err(|e| e.to_string())?;
+                            // step 3: Encryption Response
+                            if step == 3 { client.write_all(&dev).await.map_err(|e| e.to_string())?; } else {
+                                let key = &crypto::KEY_PAIR.1;
+                                client.write_packet(login_in::EncryptionResponsePacket {
+                                    shared_secret: crypto::encrypt(key, b"verysecuresecret").map_err(|e| e.to_string())?,
+                                    verify_token: crypto::encrypt(key, &enc.verify_token).map_err(|e| e.to_string())?,
+                                }).await.map_err(|e| e.to_string())?;
+                                let mut client = CipherStream::from_secret(client, b"verysecuresecret").map_err(|e| e.to_string())?;
+                                let (_id, _b) = read_frame(&mut client).await?; // Login Success
+                                // step 4: Login Acknowledged
+                                client.write_all(&dev).await.map_err(|e| e.to_string())?;
+                                loop { match tokio::time::timeout(std::time::Duration::from_millis(1500), read_frame(&mut client)).await { Ok(Ok((id, _b))) => after.push(id), _ => return Ok(()) } }
+                            }
+                        }
+                    }
+                    loop { match tokio::time::timeout(std::time::Duration::from_millis(1500), read_frame(&mut client)).await { Ok(Ok((id, _b))) => after.push(id), _ => return Ok(()) } }
+                }.await;
+                let res = match tokio::time::timeout(std::time::Duration::from_secs(5), server).await {
+                    Ok(Ok(Ok(()))) => "Ok".to_string(), Ok(Ok(Err(e))) => format!("Err({e})"), Ok(Err(e)) => format!("panicked: {e}"), Err(_) => "still running".into(),
+                };
+                (after, res)
+            });
+            // after the deviation nothing of the login / configuration may arrive any more (a Disconnect, id 0x00 in login / 0x02 in
+            // configuration, would be acceptable; Login Success 0x02 in login state is not: before step 4 any 0x02 is a Login Success)
+            let bad: Vec<&i32> = after.iter().filter(|id| if step < 4 { **id == 0x01 || **id == 0x02 || **id == 0x05 } else { **id == 0x0A || **id == 0x0B || **id == 0x04 }).collect();
+            if !bad.is_empty() || !server_result.starts_with("Err") {
+                println!("REPRODUCED order step {step} replaced by `{label}`: the server went on with packet ids {after:?} and listen() ended with {server_result}");
+                found += 1;
+            }
+        }
+    }
+    // status intent
+    let status: Vec<String> = rt.block_on(async {
+        let mut problems = vec![];
+        for variant in ["ping-first", "two-requests"] {
+            let (mut client, server_stream): (DuplexStream, DuplexStream) = tokio::io::duplex(1 << 16);
+            let mut server = Connection::new(
+                server_stream,
+                Arc::new(FixedStatusAdapter::default()),
+                Arc::new(FixedDiscoveryAdapter::new(vec![])),
+                Arc::new(Vec::<MetaFilterAdapter>::new()),
+                Arc::new(AnyStrategyAdapter::new()),
+                Arc::new(FixedAuthenticationAdapter::default()),
+                Arc::new(FixedLocalizationAdapter::default()),
+            );
+            let server = tokio::spawn(async move { server.listen().await.map_err(|e| e.to_string()) });
+            let _ = client.write_packet(hand_in::HandshakePacket { protocol_version: 767, server_address: "play.example".into(), server_port: 25565, next_state: State::Status }).await;
+            let mut got: Vec<i32> = vec![];
+            if variant == "ping-first" {
+                let _ = client.write_all(&frame(0x01, &[0, 0, 0, 0, 0, 0, 0, 9])).await;
+            } else {
+                let _ = client.write_all(&frame(0x00, &[])).await;
+                let _ = client.write_all(&frame(0x00, &[])).await;
+            }
+            while let Ok(Ok((id, _))) = tokio::time::timeout(std::time::Duration::from_secs(2), read_frame(&mut client)).await { got.push(id); }
+            let res = tokio::time::timeout(std::time::Duration::from_secs(5), server).await;
+            let ended_err = matches!(res, Ok(Ok(Err(_))));
+            let ok = if variant == "ping-first" { got.is_empty() && ended_err } else { got == vec![0x00] && ended_err };
+            if !ok { problems.push(format!("status {variant}: server sent packet ids {got:?}, listen() ended with an error: {ended_err}")); }
+        }
+        problems
+    });
+    for p in status { println!("REPRODUCED order {p}"); found += 1; }
+    found
+}
